@@ -2,6 +2,7 @@
    Model/Merge.v: cabd_merge at the level of the folder and file lists it builds (folder identities unique across the set). *)
 From Coq Require Import List NArith.
 From MSP Require Import Model.Merge Proofs.MergeP.
+From MSP Require Model.CabSet Proofs.CabSetP.
 Import ListNotations. Local Open Scope N_scope.
 
 (* three consecutive parts A, B, C: joining (A,B) first or (B,C) first gives the same folder list and the same file list *)
@@ -30,3 +31,18 @@ Print Assumptions C13_merge_any_order_single_folder_part.
 Theorem C13_merged_block_count : forall a b, 1 <= blocks b -> blocks (absorb a b) + 1 = blocks a + blocks b.
 Proof. exact absorb_blocks. Qed.
 Print Assumptions C13_merged_block_count.
+
+(* the tie of that list-level model to the code: Model/CabSet.v is the executable model of cabd_merge / cabd_can_merge_folders over
+   the shared folder and file lists with the identities the C objects have (it is run against the C library on every check, all
+   join orders, refusals and damaged parts); whenever it joins two chains, the lists it builds are exactly the abstract merge
+   of the two chains' lists (folder identities below 65536 per cabinet, the right chain's first folder not referenced from the
+   left chain, block counts within 32 bits) *)
+Theorem C13_executable_merge_is_abstract_merge : forall cl cr ch, CabSet.join_chains cl cr = Some (Some ch) ->
+  Forall (fun sf => CabSetP.small (CabSet.sf_id sf)) (CabSet.ch_folders cr) ->
+  Forall (fun f => CabSetP.small (CabSet.sfi_folder f)) (CabSet.ch_files cl ++ CabSet.ch_files cr) ->
+  (forall rfol rest, CabSet.ch_folders cr = rfol :: rest -> Forall (fun f => CabSet.sfi_folder f <> CabSet.sf_id rfol) (CabSet.ch_files cl)) ->
+  (forall lfol rfol rest, CabSet.last_opt (CabSet.ch_folders cl) = Some lfol -> CabSet.ch_folders cr = rfol :: rest ->
+     1 <= CabSet.sf_nblocks lfol + CabSet.sf_nblocks rfol /\ CabSet.sf_nblocks lfol + CabSet.sf_nblocks rfol <= Chm.M32) ->
+  CabSetP.apart ch = merge (CabSetP.apart cl) (CabSetP.apart cr).
+Proof. exact CabSetP.join_is_abstract_merge. Qed.
+Print Assumptions C13_executable_merge_is_abstract_merge.
